@@ -324,9 +324,9 @@ func checkC16() fw.Check {
 		MinNontrivial: 30,
 		Assumptions:   []string{"documents respect C03's guarantee (every run has at least one hop)", "avg/jitter bounds are checked up to floating-point rounding of the mean (0.1,0.1,0.1 averages to 0.10000000000000002)"},
 		Gen: func(tier string, seed int64) []fw.Case {
-			nRandom, per := 60, 800
+			nRandom, per := 100, 800
 			if tier == "thorough" {
-				nRandom, per = 400, 5000
+				nRandom, per = 800, 5000
 			}
 			var cases []fw.Case
 			// exhaustive small documents: <=2 runs x <=3 hops x address classes x <=3 samples from a 4-value set
